@@ -146,8 +146,8 @@ func runC12(c *Ctx) {
 	okReplay := false
 	eachInstr(prRead, func(ins ssa.Instruction) {
 		// r.buf = r.buf[k:] with k = copy count min(len(b), len(r.buf))
-		if st, ok := ins.(*ssa.Store); ok && isFieldAddr(st.Addr, prT, "buf") {
-			if sl, ok := st.Val.(*ssa.Slice); ok && sl.Low != nil && sl.High == nil && isFieldLoad(sl.X, prT, "buf") {
+		if st, ok := ins.(*ssa.Store); ok && isFieldAddr(st.Addr, prT, c.fld("peekReader.buf")) {
+			if sl, ok := st.Val.(*ssa.Slice); ok && sl.Low != nil && sl.High == nil && isFieldLoad(sl.X, prT, c.fld("peekReader.buf")) {
 				okReplay = true
 			}
 		}
@@ -158,7 +158,7 @@ func runC12(c *Ctx) {
 	f := ia.execScanner
 	var push *ssa.Store
 	eachInstr(f, func(ins ssa.Instruction) {
-		if st, ok := ins.(*ssa.Store); ok && isFieldAddr(st.Addr, ia.T, "scanners") {
+		if st, ok := ins.(*ssa.Store); ok && isFieldAddr(st.Addr, ia.T, c.fld("intp.scanners")) {
 			if call, ok := st.Val.(*ssa.Call); ok {
 				if b, ok := call.Common().Value.(*ssa.Builtin); ok && b.Name() == "append" {
 					push = st
@@ -175,7 +175,7 @@ func runC12(c *Ctx) {
 			}
 			for _, cl := range closuresOf(d.Call.Value) {
 				eachInstr(cl, func(i2 ssa.Instruction) {
-					if st, ok := i2.(*ssa.Store); ok && isFieldAddr(st.Addr, ia.T, "scanners") {
+					if st, ok := i2.(*ssa.Store); ok && isFieldAddr(st.Addr, ia.T, c.fld("intp.scanners")) {
 						if sl, ok := st.Val.(*ssa.Slice); ok && sl.High != nil {
 							okPop = true
 						}
@@ -213,7 +213,7 @@ func runC12(c *Ctx) {
 		}
 		eachInstr(f, func(ins ssa.Instruction) {
 			ld, ok := ins.(*ssa.UnOp)
-			if !ok || ld.Op != token.MUL || !isFieldAddr(ld.X, scannerT, "err") {
+			if !ok || ld.Op != token.MUL || !isFieldAddr(ld.X, scannerT, c.fld("scanner.err")) {
 				return
 			}
 			nSticky++
@@ -259,7 +259,7 @@ func runC12(c *Ctx) {
 	next := c.method("postscript", "scanner", "Next")
 	usesPeek := false
 	eachInstr(next, func(ins ssa.Instruction) {
-		if ld, ok := ins.(*ssa.UnOp); ok && isFieldLoad(ld, scannerT, "peek") {
+		if ld, ok := ins.(*ssa.UnOp); ok && isFieldLoad(ld, scannerT, c.fld("scanner.peek")) {
 			usesPeek = true
 		}
 	})
